@@ -336,6 +336,8 @@ void Sim::runTask(int id, int wi, int kind) {
 }
 
 // One scheduling point.  CREATE / YIELD: start zero or more tasks.  WAIT: start exactly one task if possible.
+bool g_deep = false;
+
 void Sim::point(int kind) {
     if (!active) return;
     NoCount noCount;
@@ -354,7 +356,7 @@ void Sim::point(int kind) {
             }
             start = haveReplayDecision || kind == PK_WAIT;
         } else {
-            start = (kind == PK_WAIT) ? true : rng.chance(kind == PK_CREATE ? policy.pCreate : policy.pYield);
+            start = (kind == PK_WAIT) ? true : rng.chance(kind == PK_CREATE ? policy.pCreate : (kind == PK_DEEP ? policy.pDeep : policy.pYield));
         }
         if (!start) return;
 
@@ -442,3 +444,23 @@ void Sim::noteAccess(const void* lo, size_t bytes, bool write, int what) {
 }
 
 }  // namespace tbfsim
+
+// ---------------------------------------------------------------------------------------------
+// Function-boundary preemption: translation units compiled with -finstrument-functions (the worlds of the shipped
+// floating-point kernels) call these at the entry and exit of every library function, inlined ones included.  Inside a
+// kernel callback of a simulated task this is one more scheduling point, so that another ready task can run between two
+// steps of ONE kernel operator (state that a routine keeps outside its arguments is then exposed).
+extern "C" {
+__attribute__((no_instrument_function)) void __cyg_profile_func_enter(void*, void*) {
+    if (!tbfsim::g_deep) return;
+    tbfsim::g_deep = false;            // not re-entered from the scheduler or from the nested task's own executor code
+    tbfsim::g_sim->point(tbfsim::PK_DEEP);
+    tbfsim::g_deep = true;
+}
+__attribute__((no_instrument_function)) void __cyg_profile_func_exit(void*, void*) {
+    if (!tbfsim::g_deep) return;
+    tbfsim::g_deep = false;
+    tbfsim::g_sim->point(tbfsim::PK_DEEP);
+    tbfsim::g_deep = true;
+}
+}
